@@ -2734,6 +2734,10 @@ impl ContinuityStore {
         let (actor_id, origin) = provenance;
         let mut created: Vec<CompactionAutoResultCheckpointV1> = Vec::new();
 
+        #[cfg(rip_verif)]
+        if rip_kernel::verif::fail("cont.job.replay") {
+            return Err("continuity replay failed: injected".to_string());
+        }
         let continuity_events = self
             .replay_events(thread_id)
             .map_err(|err| format!("continuity replay failed: {err}"))?;
